@@ -214,7 +214,7 @@ Proof.
   all: repeat (progress (io; look; rewrite ?Hl1, ?Hb1'; unfold gint;
                           cbn [g_len g_add g_eq pv_eq gbytes length Z.of_nat Pos.of_succ_nat Z.eqb Pos.eqb bind g_slice slice_of gnone])).
   all: rewrite ?last1; cbn [beq andb].
-  all: try (rewrite andb_true_r; destruct (x =? 10)%N).
+  all: try (rewrite ?(N.eqb_sym 10%N x), andb_true_r; destruct (x =? 10)%N).
   all: eexists; split; [reflexivity|]; split; look; first [exact Hb1' | exact Hl1 | reflexivity].
 Qed.
 
